@@ -16,6 +16,7 @@ import numpy as np
 
 N = [0]
 BAD = []
+KNOWN = {}          # id of a known finding (known_findings.json) -> inputs of this run that show it
 
 
 def newfile(name="t.nix", **kw):
@@ -939,6 +940,992 @@ def b_c20(tier):
     return "block copies: {keep, fresh ids} x {default, new name} x {same file, other file}; section copies into file / section x {recursive, flat} x id policy; property copies: content, internal links, id policy, returned handle, independence, existing names"
 
 
+def b_c18(tier):
+    """format upgrade: old-format files built with raw h5py from files written by the library"""
+    import h5py
+    import nixio
+    from nixio.cmd import upgrade
+    vlen = h5py.special_dtype(vlen=str)
+    LIB = tuple(nixio.file.HDF_FF_VERSION)
+
+    def props_of(h):
+        out = []
+
+        def visit(_, o):
+            if isinstance(o, h5py.Dataset) and "entity_id" in o.attrs and "/properties/" in o.name:
+                out.append(o.name)
+        h["metadata"].visititems(visit)
+        return out
+
+    def make_old(path, unc_of, with_id, n_alias, extras):
+        """write a current file with the library, then rewrite it into the old layout"""
+        f = nixio.File.open(path, nixio.FileMode.Overwrite)
+        s = f.create_section("sess", "t"); s.create_property("ints", [1, 2, 3]); s.create_property("floats", [0.5, 1.5]).unit = "mV"
+        p = s.create_property("text", ["a", "ünï"]); p.definition = "words"; s.create_property("flag", [True]); s.create_property("one", [7.25])
+        sub = s.create_section("sub", "t"); sub.create_property("deep", [1.0, 2.0, 3.0]); f.create_section("empty", "t")
+        b = f.create_block("blk", "t"); a0 = b.create_data_array("plain", "t", data=np.arange(6.0).reshape(2, 3))
+        a0.append_sampled_dimension(0.5, label="x", unit="s"); a0.append_set_dimension(["a", "b", "c"])
+        arrs = []
+        for k in range(n_alias):
+            a = b.create_data_array("alias%d" % k, "t", data=np.array([0.5, 1.5, 4.0 + k])); a.unit = "ms"; a.label = "time%d" % k
+            a.append_range_dimension_using_self(); arrs.append(a.name)
+        expected = walk_file(f); f.close()
+        unc = {}
+        with h5py.File(path, "a") as h:
+            for pn in props_of(h):
+                old = h[pn]; vals = old[()]; attrs = dict(old.attrs); n = len(vals)
+                u = unc_of(pn.split("/")[-1], n)
+                dt = np.dtype([("value", old.dtype if old.dtype.kind != "O" else vlen), ("uncertainty", "<f8"), ("reference", vlen),
+                               ("filename", vlen), ("encoder", vlen), ("checksum", vlen)])
+                rec = np.zeros(n, dtype=dt)
+                rec["value"] = vals; rec["uncertainty"] = u
+                ex = extras and pn.endswith("/text")
+                for fld in ("reference", "filename", "encoder", "checksum"):
+                    rec[fld] = [("%s%d" % (fld, i)) if ex else "" for i in range(n)]
+                del h[pn]
+                ds = h.create_dataset(pn, data=rec, dtype=dt, chunks=True, maxshape=(None,))
+                for k_, v_ in attrs.items():
+                    ds.attrs[k_] = v_
+                unc[pn] = (list(u), ex)
+            for an in arrs:
+                da = h["data/blk/data_arrays/" + an]; dim = da["dimensions/1"]
+                daid = da.attrs["entity_id"]
+                if "link" in dim:
+                    del dim["link"]
+                dim[daid] = da                        # the old alias range dimension: a link to its own array, no ticks
+            h.attrs["version"] = (1, 1, 1)
+            if not with_id:
+                if "id" in h.attrs:
+                    del h.attrs["id"]
+        return expected, unc
+
+    def norm(w):
+        """ids / creation times of converted properties are new: compare everything else"""
+        def rep(x, key=None):
+            if isinstance(x, dict):
+                drop = ("id", "created") if x.get("kind") is None and "values" in x else ()
+                return {k: ("#" if k in drop else rep(v, k)) for k, v in x.items() if k != "version"}
+            if isinstance(x, list):
+                return [rep(v) for v in x]
+            return x
+        return rep(w)
+
+    def strip_companions(w):
+        def rec(sec):
+            # (converted properties are re-created, in name order: the order within a section is not compared)
+            sec = dict(sec); sec["props"] = sorted((p for p in sec["props"] if "." not in str(p["name"])), key=lambda p: str(p["name"]))
+            sec["sections"] = [rec(c) for c in sec["sections"]]; return sec
+        w = dict(w); w["sections"] = [rec(s) for s in w["sections"]]; return w
+
+    def check_upgraded(path, expected, unc, label):
+        try:
+            f = nixio.File.open(path, nixio.FileMode.ReadWrite)
+        except Exception as e:
+            check(False, "the upgraded file cannot be opened for writing", case=label, error=repr(e)); return None
+        got = walk_file(f)
+        check(tuple(f.version) == LIB, "the format version was not raised to the library's", case=label, version=f.version)
+        check(bool(f.id) and nixio.util.is_uuid(f.id) if hasattr(nixio.util, "is_uuid") else True, "no valid file id after the upgrade", case=label)
+        r = diff(norm(strip_companions(expected)), norm(strip_companions(got)))
+        check(r is None, "content differs after the upgrade", case=label, where=r)
+        # per-value extras remain retrievable
+        for pn, (u, ex) in unc.items():
+            parts = pn.split("/"); sec = f.sections[parts[2]]
+            for q in parts[3:-2]:
+                if q != "sections":
+                    sec = sec.sections[q]
+            name = parts[-1]; prop = sec.props[name]
+            if len(set(u)) > 1:
+                comp = name + ".uncertainty"
+                ok = comp in sec.props and [float(x) for x in sec.props[comp].values] == [float(x) for x in u]
+                check(ok, "distinct per-value uncertainties are not retrievable after the upgrade", case=label, prop=name, uncertainties=u,
+                      companion=list(sec.props[comp].values) if comp in sec.props else None, attr=_safe(lambda: prop.uncertainty))
+            elif u and u[0] != 0:
+                check(prop.uncertainty is not None and float(prop.uncertainty) == float(u[0]),
+                      "a uniform non-zero uncertainty was lost in the upgrade", case=label, prop=name, uncertainties=u,
+                      attr=_safe(lambda: prop.uncertainty))
+            else:
+                check(prop.uncertainty in (None, 0, 0.0) and (name + ".uncertainty") not in sec.props,
+                      "an uncertainty appeared from nowhere", case=label, prop=name)
+            for fld in ("reference", "filename", "encoder", "checksum"):
+                comp = "%s.%s" % (name, fld)
+                if ex:
+                    check(comp in sec.props and list(sec.props[comp].values) == ["%s%d" % (fld, i) for i in range(len(u))],
+                          "per-value extras are not retrievable after the upgrade", case=label, prop=name, extra=fld)
+                else:
+                    check(comp not in sec.props, "an empty extra produced a companion property", case=label, prop=name, extra=fld)
+        f.close()
+        return got
+
+    UNC = {
+        "zero": lambda nm, n: [0.0] * n,
+        "uniform": lambda nm, n: [0.25] * n,
+        "distinct": lambda nm, n: [0.1 * (i + 1) for i in range(n)],
+        "close": lambda nm, n: [1e-9 * (1 + (i * 2) % 3) for i in range(n)],
+        "nearly": lambda nm, n: [0.25 + 2e-6 * i for i in range(n)],
+        "mixed": lambda nm, n: ([0.0] * (n - 1) + [0.5]) if n > 1 else [0.0],
+    }
+    d = tempfile.mkdtemp(prefix="bnd_up_")
+    cases = [(u, wid, na, ex) for u in UNC for wid in (True, False) for na in (0, 2) for ex in (False, True)]
+    if tier == "quick":
+        cases = [c for c in cases if (c[1], c[2], c[3]) in ((False, 2, True), (True, 0, False))]
+    for ci, (uk, wid, na, ex) in enumerate(cases):
+        label = "unc=%s id=%s alias=%d extras=%s" % (uk, wid, na, ex)
+        path = os.path.join(d, "c%d.nix" % ci)
+        expected, unc = make_old(path, UNC[uk], wid, na, ex)
+        # an old file is refused for writing before the upgrade
+        try:
+            nixio.File.open(path, nixio.FileMode.ReadWrite).close(); check(False, "an old-format file was opened for writing", case=label)
+        except Exception:
+            N[0] += 1
+        import shutil
+        resumed = os.path.join(d, "r%d.nix" % ci); shutil.copy(path, resumed)
+        ok = upgrade.file_upgrade(path, quiet=True)
+        check(ok is True, "file_upgrade reported failure", case=label)
+        got = check_upgraded(path, expected, unc, label)
+        # idempotence: a second run finds nothing to do and changes nothing
+        tasks, _, _ = upgrade.collect_tasks(path)
+        check(tasks == [], "an up-to-date file still has upgrade tasks", case=label, tasks=[t.__doc__ for t in tasks])
+        before = open(path, "rb").read(); upgrade.file_upgrade(path, quiet=True)
+        check(open(path, "rb").read() == before, "upgrading an up-to-date file changed it", case=label)
+        # resumability: stop after each task in turn (the version is raised last), then run the whole upgrade again
+        tasks, _, _ = upgrade.collect_tasks(resumed)
+        check(tasks and "version" in (tasks[-1].__doc__ or ""), "the version update is not the last task", case=label,
+              tasks=[t.__doc__ for t in tasks])
+        for stop in range(len(tasks)):
+            rp = os.path.join(d, "r%d_%d.nix" % (ci, stop)); shutil.copy(resumed, rp)
+            tl, _, _ = upgrade.collect_tasks(rp)
+            for t in tl[:stop]:
+                t()
+            with h5py.File(rp, "r") as h:
+                ver = tuple(h.attrs["version"])
+            check(ver < LIB, "the version was raised before every conversion step had completed", case=label, stopped_after=stop, version=ver)
+            check(upgrade.file_upgrade(rp, quiet=True) is True, "the re-run after an interruption failed", case=label, stopped_after=stop)
+            g2 = check_upgraded(rp, expected, unc, label + " resumed after %d task(s)" % stop)
+            if got is not None and g2 is not None:
+                r = diff(norm(got), norm(g2))
+                check(r is None, "a resumed upgrade ends in a different state than an uninterrupted one", case=label, stopped_after=stop, where=r)
+            os.remove(rp)
+        # ... and inside the property task: interrupted between two property conversions
+        rp = os.path.join(d, "ri%d.nix" % ci); shutil.copy(resumed, rp)
+        proptask = [t for t in upgrade.collect_tasks(rp)[0] if "propert" in (t.__doc__ or "")]
+        if proptask:
+            # run the conversion on a copy of the task restricted to the first half of the properties
+            cells = {v: c for v, c in zip(proptask[0].__code__.co_freevars, proptask[0].__closure__)}
+            plist = cells["props"].cell_contents; full = list(plist); del plist[len(full) // 2:]
+            proptask[0]()
+            plist[:] = full
+            check(upgrade.file_upgrade(rp, quiet=True) is True, "the re-run after an interruption inside the property task failed", case=label)
+            g3 = check_upgraded(rp, expected, unc, label + " resumed inside the property task")
+            if got is not None and g3 is not None:
+                r = diff(norm(got), norm(g3))
+                check(r is None, "a resumed upgrade (inside the property task) ends in a different state", case=label, where=r)
+        os.remove(rp)
+    import shutil
+    shutil.rmtree(d, ignore_errors=True)
+    return ("old-format files derived from a library-written file (7 properties of 4 value types in nested sections, a 2-D array, "
+            "0 / 2 alias range dimensions) x 6 uncertainty patterns x {with, without file id} x {no, all} per-value extras "
+            "(quick: 12 of the 48 combinations): content, extras, version last, idempotence, re-run after stopping at every task "
+            "boundary and between two property conversions")
+
+
+def b_c11(tier):
+    """open modes and version gating on header variants written with raw h5py"""
+    import h5py
+    import shutil
+    import nixio
+    LIB = tuple(nixio.file.HDF_FF_VERSION)
+    d = tempfile.mkdtemp(prefix="bnd_c11_")
+    base = os.path.join(d, "base.nix")
+    f = sample_file(nixio.File.open(base, nixio.FileMode.Overwrite)); ref = walk_file(f); f.close()
+    bare = os.path.join(d, "bare.h5")
+    with h5py.File(bare, "w") as h:
+        h.attrs["format"] = "nix"; h.attrs["version"] = LIB; h.attrs["id"] = str(uuid.uuid4()); h.create_group("stuff").attrs["x"] = 1
+
+    def content(p):
+        with open(p, "rb") as fh:
+            return fh.read()
+    vers = sorted({(x, y, z) for x in (LIB[0] - 1, LIB[0], LIB[0] + 1) for y in (0, LIB[1] - 1, LIB[1], LIB[1] + 1)
+                   for z in (0, LIB[2], LIB[2] + 1) if x >= 0 and y >= 0})
+    if tier == "quick":
+        vers = [v for v in vers if v[2] in (LIB[2], LIB[2] + 1) or v[:2] == LIB[:2]]
+    ids = {"valid": str(uuid.uuid4()), "invalid": "not-an-id", "missing": None}
+    k = 0
+    for src in (base, bare):
+        for ver in vers:
+            for idk, idv in ids.items():
+                for tag in ("nix", "hdf5"):
+                    for mode in ("r", "a", "w"):
+                        k += 1
+                        p = os.path.join(d, "v.nix"); shutil.copy(src, p)
+                        with h5py.File(p, "a") as h:
+                            h.attrs["format"] = tag; h.attrs["version"] = ver
+                            if idv is None:
+                                if "id" in h.attrs:
+                                    del h.attrs["id"]
+                            else:
+                                h.attrs["id"] = idv
+                        before = content(p)
+                        id_ok = idk == "valid" or ver < (1, 2, 0)
+                        want = {"w": True,
+                                "a": tag == "nix" and ver == LIB and id_ok,
+                                "r": tag == "nix" and ver[0] == LIB[0] and ver[1] <= LIB[1] and id_ok}[mode]
+                        case = dict(version=ver, id=idk, format=tag, mode=mode, file="library-written" if src == base else "foreign layout")
+                        if src == bare and (want or mode == "w"):
+                            continue           # the foreign layout only serves the refusals: a refused file is left untouched
+                        err = None
+                        try:
+                            g = nixio.File.open(p, mode)
+                        except Exception as e:
+                            err = repr(e)
+                        if err is not None:
+                            import gc
+                            gc.collect()          # (the half-constructed File object of the refused open still held the HDF5 handle)
+                            check(not want, "a file that must be accepted was refused", error=err, **case)
+                            check(content(p) == before, "a refused file was written to", **case)
+                            continue
+                        if not want:
+                            check(False, "a file that must be refused was opened", **case); g.close(); continue
+                        N[0] += 1
+                        if mode == "w":
+                            check(len(g.blocks) == 0 and len(g.sections) == 0 and tuple(g.version) == LIB and g.format == "nix"
+                                  and nixio.util.util.is_uuid(g.id) and g.id != idv, "overwrite did not yield an empty file with a fresh header",
+                                  blocks=len(g.blocks), got_version=g.version, **case)
+                        elif src == base and ver == LIB:        # (the sample has the current layout: only then are its reads meaningful)
+                            w = walk_file(g); w["version"] = ref["version"]; w["format"] = ref["format"]
+                            r = diff(ref, w)
+                            check(r is None, "existing content is not kept / not read the same", where=r, **case)
+                        g.close()
+                        if mode == "r":
+                            check(content(p) == before, "a read-only session changed the bytes on disk", **case)
+    # read-only: every mutating call fails, nothing changes
+    p = os.path.join(d, "ro.nix"); shutil.copy(base, p); before = content(p)
+    g = nixio.File.open(p, nixio.FileMode.ReadOnly); b = g.blocks[0]; a = b.data_arrays["ints"]; s = g.sections["sess"]
+    muts = {
+        "create_block": lambda: g.create_block("n", "t"), "create_section": lambda: g.create_section("n", "t"),
+        "create_data_array": lambda: b.create_data_array("n", "t", data=[1]), "create_tag": lambda: b.create_tag("n", "t", [0.0]),
+        "create_group": lambda: b.create_group("n", "t"), "create_source": lambda: b.create_source("n", "t"),
+        "array.label": lambda: setattr(a, "label", "x"), "array.unit": lambda: setattr(a, "unit", "mV"),
+        "array write": lambda: a.__setitem__(0, 5), "array append": lambda: a.append(np.array([1], dtype=a.dtype)),
+        "append dimension": lambda: a.append_set_dimension(["q"]), "entity.definition": lambda: setattr(b, "definition", "x"),
+        "delete array": lambda: b.data_arrays.__delitem__("ints"), "delete block": lambda: g.blocks.__delitem__(b.name),
+        "create_property": lambda: s.create_property("n", [1]), "property values": lambda: setattr(s.props["n"], "values", [5]),
+        "section item": lambda: s.__setitem__("zz", 1), "delete section": lambda: g.sections.__delitem__("other"),
+        "group link": lambda: b.groups[0].data_arrays.append(a), "tag position": lambda: setattr(b.tags[0], "position", [9.0]),
+        "metadata link": lambda: setattr(a, "metadata", s), "force_updated_at": lambda: b.force_updated_at(),
+        "file force_updated_at": lambda: g.force_updated_at(), "copy block": lambda: g.create_block(name="cp", copy_from=b),
+        "copy section": lambda: g.copy_section(s, name="cps"),
+    }
+    for nm, m in muts.items():
+        try:
+            m(); check(False, "a mutating call succeeded on a file opened read-only", call=nm)
+        except Exception:
+            N[0] += 1
+    w = walk_file(g); r = diff(ref, w)
+    check(r is None, "reads in a read-only session differ from the writable session (after refused mutations)", where=r)
+    g.close()
+    check(content(p) == before, "the bytes on disk changed during a read-only session with refused mutations")
+    # missing paths
+    try:
+        nixio.File.open(os.path.join(d, "nope.nix"), nixio.FileMode.ReadOnly); check(False, "a missing path was opened read-only")
+    except Exception:
+        check(not os.path.exists(os.path.join(d, "nope.nix")), "opening a missing path read-only created it")
+    g = nixio.File.open(os.path.join(d, "new.nix"), nixio.FileMode.ReadWrite)
+    check(len(g.blocks) == 0 and tuple(g.version) == LIB, "read-write on a missing path did not create an empty file"); g.close()
+    shutil.rmtree(d, ignore_errors=True)
+    return ("%d header variants: version grid around the library's x {valid, invalid, missing} id x {nix, other} format tag x 3 modes x "
+            "{library-written file, foreign HDF5 layout}; 25 mutating calls on a read-only sample file; missing paths" % k)
+
+
+def b_c10(tier):
+    """typed value lists and dictionary-style section access against a pure-Python model"""
+    import math
+    import nixio
+    SAMPLES = {
+        "bool": [[True], [False, True, True]],
+        "int": [[0], [2 ** 62, -1, 7], [-2 ** 63]],
+        "float": [[0.5], [1e308, -0.0, float("nan")], [float("inf"), 2.5]],
+        "text": [["a"], ["", "ünï – 語", "x" * 300], [""]],
+    }
+
+    def typ(v):
+        return "bool" if isinstance(v, (bool, np.bool_)) else "int" if isinstance(v, (int, np.integer)) else \
+            "float" if isinstance(v, (float, np.floating)) else "text" if isinstance(v, str) else "?"
+
+    def same(got, want):
+        got = list(got)
+        if len(got) != len(want):
+            return False
+        for g, w in zip(got, want):
+            if typ(g) != typ(w):
+                return False
+            if isinstance(w, float) and math.isnan(w):
+                if not math.isnan(g):
+                    return False
+            elif g != w or (isinstance(w, float) and math.copysign(1, g) != math.copysign(1, w)):
+                return False
+        return True
+    path = os.path.join(tempfile.mkdtemp(prefix="bnd_c10_"), "p.nix")
+    f = nixio.File.open(path, nixio.FileMode.Overwrite); sec = f.create_section("s", "t")
+    model = {}          # name -> (type, values) in creation order
+    k = 0
+    for t, lists in SAMPLES.items():
+        for vals in lists:
+            k += 1; nm = "%s%d" % (t, k)
+            p = sec.create_property(nm, list(vals)); model[nm] = (t, list(vals))
+            check(same(p.values, vals), "reading does not return the values stored at creation", name=nm, stored=vals, got=_safe(lambda: p.values))
+            # refused: another type, mixed types - same length, shorter and longer than the stored list
+            for t2, lists2 in SAMPLES.items():
+                if t2 == t:
+                    continue
+                for cand in (lists2[0], lists2[1], [lists2[0][0]] * (len(vals) + 2), list(vals) + [lists2[0][0]], [lists2[0][0]] + list(vals)):
+                    for how in ("assign", "extend", "item"):
+                        try:
+                            if how == "assign":
+                                p.values = list(cand)
+                            elif how == "extend":
+                                p.extend_values(list(cand))
+                            else:
+                                sec[nm] = list(cand)
+                            check(False, "values of another type / mixed types were accepted", name=nm, stored_type=t, candidate=cand, how=how)
+                            p.values = list(vals)
+                        except TypeError:
+                            check(same(p.values, model[nm][1]), "a refused %s changed the stored values" % how, name=nm, stored=model[nm][1],
+                                  candidate=cand, now=_safe(lambda: p.values))
+                        except Exception as e:
+                            check(False, "wrong-type values were refused with %s instead of a type error" % type(e).__name__, name=nm, candidate=cand,
+                                  how=how)
+            # accepted: extend and assign with the same type
+            more = lists[0]
+            p.extend_values(list(more)); model[nm] = (t, list(vals) + list(more))
+            check(same(p.values, model[nm][1]), "appending did not add the new values after the existing ones", name=nm, want=model[nm][1],
+                  got=_safe(lambda: p.values))
+            new = lists[-1]
+            p.values = list(new); model[nm] = (t, list(new))
+            check(same(p.values, new), "assigning did not replace the values", name=nm, want=new, got=_safe(lambda: p.values))
+            check(typ(p.values[0]) == t, "the value type changed", name=nm, type=t)
+    # dictionary-style access
+    sub = sec.create_section("child", "t"); sec.create_section("child2", "t")
+
+    def consistent(where):
+        names = [p.name for p in sec.props]
+        check(names == list(model), "the property list differs from the model", where=where, names=names, model=list(model))
+        check(len(sec.props) <= len(sec) <= len(sec.props) + len(sec.sections), "len(section) is inconsistent with its properties / subsections",
+              where=where, len=len(sec))
+        its = [getattr(x, "name", None) for x in sec]
+        check(its == names + [s_.name for s_ in sec.sections], "iteration is not the properties followed by the subsections", where=where, got=its)
+        check([k_ for k_, _ in sec.items()] == its, "items() and iteration disagree", where=where)
+        for nm, (t, vals) in model.items():
+            check(nm in sec, "membership denies an existing property", name=nm, where=where)
+            got = sec[nm]
+            want = vals[0] if len(vals) == 1 else vals
+            ok = same([got], [want]) if len(vals) == 1 else same(got, want)
+            check(ok, "dictionary-style lookup does not return the stored value(s)", name=nm, want=want, got=got, where=where)
+        check("child" in sec and sec["child"].id == sub.id, "dictionary-style access does not reach a subsection", where=where)
+        check("nope" not in sec, "membership admits a missing key", where=where)
+        try:
+            sec["nope"]; check(False, "lookup of a missing key returned something", where=where)
+        except KeyError:
+            N[0] += 1
+    consistent("after the typed histories")
+    for nm, val in (("d_int", 5), ("d_float", 2.5), ("d_text", "hello"), ("d_empty_text", ""), ("d_bool", False), ("d_list", [1, 2, 3]),
+                    ("d_texts", ["a", ""]), ("d_zero", 0), ("d_uni", "ü")):
+        try:
+            sec[nm] = val
+        except Exception as e:
+            check(False, "a legal dictionary-style assignment of a new key was refused", key=nm, value=val, error=repr(e)); continue
+        model[nm] = (typ(val[0] if isinstance(val, list) else val), list(val) if isinstance(val, list) else [val])
+    for nm, val in (("m1", [1, "x"]), ("m2", [1.5, 2]), ("m3", [True, 1]), ("m4", ["a", 1]), ("m5", [1, None])):
+        for how in ("create_property", "item"):
+            try:
+                if how == "item":
+                    sec[nm] = val
+                else:
+                    sec.create_property(nm, val)
+                check(False, "a mixed-type list was accepted for a new property", values=val, how=how)
+                del sec.props[nm]
+            except (TypeError, ValueError):
+                check(nm not in sec and nm not in [p.name for p in sec.props], "a refused creation left a property behind", key=nm, values=val,
+                      how=how)
+    consistent("after dictionary-style creation")
+    for nm, val in (("d_int", 9), ("d_text", ""), ("d_empty_text", "now"), ("d_list", [4]), ("d_texts", ["", ""]), ("d_bool", True), ("d_float", -0.0)):
+        try:
+            sec[nm] = val
+        except Exception as e:
+            check(False, "a legal dictionary-style assignment to an existing key was refused", key=nm, value=val, error=repr(e)); continue
+        if nm in model:
+            model[nm] = (model[nm][0], list(val) if isinstance(val, list) else [val])
+    consistent("after dictionary-style assignment")
+    for nm in ("d_int", list(model)[0], "d_texts"):
+        if nm not in model:
+            continue
+        del sec[nm]; del model[nm]
+        check(nm not in sec, "a deleted key is still a member", key=nm)
+    consistent("after dictionary-style deletion")
+    if "d_list" not in model:
+        sec["d_list"] = [1]
+    sec.props["d_list"].values = []; model["d_list"] = ("int", [])
+    check(tuple(sec.props["d_list"].values) == (), "clearing did not leave an empty value list")
+    sec.props["d_list"].values = [8, 9]; model["d_list"] = ("int", [8, 9])
+    consistent("after clear and refill")
+    f.close()
+    f = nixio.File.open(path, nixio.FileMode.ReadOnly); sec = f.sections["s"]; sub = sec.sections["child"]
+    consistent("after reopening")
+    f.close()
+    return ("10 value lists of the 4 types (extremes, NaN, -0.0, empty / non-ASCII / long text) x 3 other types x 5 wrong-type / mixed candidates "
+            "(same, shorter, longer length) x {assign, extend, dictionary-style}; accepted extend / assign; 9 + 7 dictionary-style "
+            "assignments (incl. the empty string), deletions, membership, iteration, length; all again after reopening")
+
+
+def b_c01(tier):
+    """array data: exact round trip, NumPy index semantics on arrays and views, calibration on every read path"""
+    import h5py
+    import nixio
+    path = os.path.join(tempfile.mkdtemp(prefix="bnd_c01_"), "a.nix")
+    f = nixio.File.open(path, nixio.FileMode.Overwrite); b = f.create_block("b", "t")
+    shapes = [(0,), (1,), (5,), (1, 1), (2, 3), (1, 1, 1), (2, 1, 3), (3, 4, 2)]
+    dtypes = ["<f8", "<f4", "<i8", "<i1", "<u2", "?"]
+    if tier == "quick":
+        dtypes = ["<f8", "<f4", "<i8", "?"]
+    rng = np.random.RandomState(7)
+    made = {}
+
+    def gen(shape, dt):
+        n = int(np.prod(shape))
+        if dt == "?":
+            v = rng.randint(0, 2, n).astype(bool)
+        elif dt.startswith("<f"):
+            v = (rng.randn(n) * 100).astype(dt)
+            if n > 2:
+                v[0], v[1] = np.finfo(dt).max, -0.0
+        else:
+            info = np.iinfo(dt); v = rng.randint(max(info.min, -1000), min(info.max, 1000), n).astype(dt)
+            if n > 2:
+                v[0], v[1] = info.min, info.max
+        return v.reshape(shape)
+
+    def cmp(got, want, what, **kw):
+        got = np.asarray(got)
+        if want.ndim == 0:
+            want = want.reshape((1,))          # (documented: a single value is returned as a length-1 array)
+        ok = got.shape == want.shape and got.dtype == want.dtype and np.array_equal(got, want, equal_nan=got.dtype.kind == "f") and \
+            (got.dtype.kind != "f" or np.array_equal(np.signbit(got), np.signbit(want)))
+        check(ok, what, got_shape=list(got.shape), want_shape=list(want.shape), got_dtype=str(got.dtype), want_dtype=str(want.dtype),
+              got=got.tolist() if got.size < 8 else "...", want=want.tolist() if want.size < 8 else "...", **kw)
+
+    def indices(shape):
+        r = len(shape); out = [(), Ellipsis, slice(None)]
+        if r >= 1 and shape[0] > 0:
+            n0 = shape[0]
+            out += [0, -1, n0 - 1, slice(0, 1), slice(1, None), slice(None, -1), slice(None, None, 2), slice(n0, None), slice(-2, None), slice(0, 0)]
+            if r == 1:
+                out += [(Ellipsis, 0), (0, Ellipsis), (Ellipsis, slice(1, None))]          # an ellipsis standing for zero dimensions
+        if r >= 2:
+            n1 = shape[1]
+            out += [(0, 0), (slice(None), 0), (0, slice(None)), (Ellipsis, 0), (slice(0, 1), slice(0, 1)), (-1, slice(None, None, 2)),
+                    (slice(None), slice(n1 - 1, n1)), (Ellipsis, slice(0, 1)), (0, Ellipsis)]
+            if r == 2:
+                out += [(0, Ellipsis, 0), (Ellipsis, 0, 0), (slice(None), Ellipsis, 0)]
+        if r >= 3:
+            out += [(0, 0, 0), (slice(0, 1), slice(0, 1), slice(0, 1)), (0, Ellipsis, 0), (Ellipsis, 0, slice(None)), (slice(None), 0, slice(1, None))]
+        return out
+    for si, shape in enumerate(shapes):
+        for dt in dtypes:
+            data = gen(shape, dt); nm = "a%d_%s" % (si, dt.strip("<?") or "b")
+            da = b.create_data_array(nm, "t", data=data); made[nm] = data.copy()
+            cmp(da[:] if len(shape) else da[()], data, "the whole array does not read back as written", shape=list(shape), dtype=dt)
+            check(tuple(da.shape) == shape and da.dtype == data.dtype, "shape / element type are not those of the data written", shape=list(shape),
+                  dtype=dt, got_shape=list(da.shape), got_dtype=str(da.dtype))
+            if 0 in shape:
+                continue
+            for ix in indices(shape):
+                try:
+                    want = data[ix]
+                except IndexError:
+                    continue
+                try:
+                    got = da[ix]
+                except Exception as e:
+                    check(False, "an index expression NumPy accepts was refused by the array", shape=list(shape), index=ix, error=repr(e)); continue
+                cmp(got, want, "an index expression on the array does not mean what it means in NumPy", shape=list(shape), dtype=dt, index=ix)
+    # views (get_slice in index mode) and writes through arrays and views
+    wk = [10]
+    for nm in [n for n in made if made[n].ndim in (1, 2, 3) and made[n].size > 3 and n.endswith(("f8", "i8"))]:
+        data = made[nm]; da = b.data_arrays[nm]; shape = data.shape
+        pos = [1 if s > 2 else 0 for s in shape]; ext = [max(1, s - 2) if s > 2 else s for s in shape]
+        win = tuple(slice(p, p + e) for p, e in zip(pos, ext))
+        v = da.get_slice(pos, ext); sub = data[win]
+        cmp(v[:], sub, "a view does not show the window of the array", array=nm, window=[pos, ext])
+        cmp(np.array(v), sub, "np.array(view) differs from the window", array=nm)
+        for ix in indices(sub.shape):
+            try:
+                want = sub[ix]
+            except IndexError:
+                continue
+            try:
+                got = v[ix]
+            except Exception as e:
+                check(False, "an index expression NumPy accepts was refused by the view", array=nm, window=[pos, ext], index=ix, error=repr(e)); continue
+            cmp(got, want, "an index expression on a view does not mean what it means in NumPy", array=nm, window=[pos, ext], index=ix)
+        for ix in indices(sub.shape)[:12]:
+            try:
+                target = sub[ix]
+            except IndexError:
+                continue
+            if np.asarray(target).size == 0:
+                continue
+            wk[0] += 1
+            newv = (np.asarray(target) * 0 + wk[0]).astype(data.dtype)
+            v[ix] = newv if np.asarray(target).ndim else newv.item()
+            sub[ix] = newv                      # sub is a NumPy view of data: data is the model of the stored array
+            cmp(da[:], data, "a write through a view did not change exactly the addressed elements", array=nm, window=[pos, ext], index=ix)
+        for ix in indices(shape)[:14]:
+            try:
+                target = data[ix]
+            except IndexError:
+                continue
+            if np.asarray(target).size == 0:
+                continue
+            wk[0] += 1
+            newv = (np.asarray(target) * 0 + wk[0]).astype(data.dtype)
+            da[ix] = newv if np.asarray(target).ndim else newv.item()
+            data[ix] = newv
+            cmp(da[:], data, "a write through the array did not change exactly the addressed elements", array=nm, index=ix)
+        for bad in ((slice(None),) * (len(shape) + 1), len(data) + 5 if len(shape) == 1 else (0,) * (len(shape) + 1)):
+            try:
+                da[bad]; check(False, "an index NumPy refuses was accepted by the array", array=nm, index=bad)
+            except (IndexError, ValueError, TypeError):
+                N[0] += 1
+            try:
+                v[bad]; check(False, "an index NumPy refuses was accepted by the view", array=nm, index=bad)
+            except (IndexError, ValueError, TypeError):
+                N[0] += 1
+    # growth by append along every axis
+    for nm in [n for n in made if made[n].ndim == 2 and n.endswith(("f8", "i1", "i8"))][:4]:
+        data = made[nm]; da = b.data_arrays[nm]
+        for axis in range(data.ndim):
+            blk = np.take(data, [0], axis=axis) * 0 + 1
+            da.append(blk, axis=axis); data = np.concatenate([data, blk], axis=axis); made[nm] = data
+            cmp(da[:], data, "append did not add exactly the new block after the existing data", array=nm, axis=axis)
+        # two handles on the same array: nothing about the extent may be remembered in a handle
+        h1, h2 = b.data_arrays[nm], b.data_arrays[nm]
+        check(tuple(h1.shape) == tuple(h2.shape) == data.shape, "two handles disagree on the shape", array=nm)
+        blk = np.take(data, [0], axis=0) * 0 + 2
+        h1.append(blk, axis=0); data = np.concatenate([data, blk], axis=0)
+        check(tuple(h2.shape) == data.shape and len(h2) == data.shape[0], "a second handle does not see the growth made through the first",
+              array=nm, seen=list(h2.shape), real=list(data.shape))
+        h2.append(blk, axis=0); data = np.concatenate([data, blk], axis=0); made[nm] = data
+        cmp(h1[:], data, "appends through two handles did not both land after the existing data", array=nm)
+        for wrong in (np.ones((data.shape[0] + 1, data.shape[1] + 1), dtype=data.dtype),):
+            try:
+                da.append(wrong, axis=0); check(False, "an append with a mismatching shape was accepted", array=nm)
+            except Exception:
+                cmp(da[:], data, "a refused append changed the array", array=nm)
+    # calibration: applied on every read path, never to the stored values
+    cal = {}
+    for nm in [n for n in made if made[n].size > 1 and not n.endswith("b")][:10]:
+        data = made[nm]; da = b.data_arrays[nm]
+        for coeff, origin in (((1.0, 2.0), 0.0), ((0.5, 0.0, 3.0), 1.5), ((), 2.0), ((0.0, 0.0), 0.0), ((2.0,), 0.0)):
+            da.polynom_coefficients = coeff; da.expansion_origin = origin
+            x = data.astype("<f8") - origin
+            want = sum(c * x ** k for k, c in enumerate(coeff)) if len(coeff) else x
+            if not len(coeff) and not origin:
+                want = data
+            got = da[:]
+            okv = got.shape == want.shape and np.allclose(got, want, rtol=1e-12, atol=0, equal_nan=True) and got.dtype == np.dtype("<f8")
+            check(okv, "a read of a calibrated array is not the polynomial of (stored value - origin) in double precision", array=nm,
+                  coefficients=coeff, origin=origin, got_dtype=str(got.dtype), first=got.ravel()[:2].tolist(), want_first=want.ravel()[:2].tolist())
+            if data.ndim >= 1 and data.shape[0] > 1 and okv:
+                part = da[1:]
+                check(part.shape == want[1:].shape and np.allclose(part, want[1:], rtol=1e-12, atol=0, equal_nan=True), "a slice read is calibrated differently from a whole read",
+                      array=nm, coefficients=coeff, origin=origin)
+                v = da.get_slice([0] * data.ndim, list(data.shape))
+                for how, r in (("view[:]", lambda: v[:]), ("np.array(view)", lambda: np.array(v)), ("np.asarray(view)", lambda: np.asarray(v))):
+                    got = r()
+                    check(got.shape == want.shape and np.allclose(got, want, rtol=1e-12, atol=0, equal_nan=True),
+                          "a read through a view is not calibrated like a read of the array", array=nm, how=how, coefficients=coeff, origin=origin)
+            cal[nm] = (coeff, origin)
+    f.close()
+    with h5py.File(path, "r") as h:
+        for nm, data in made.items():
+            raw = h["data/b/data_arrays/%s/data" % nm][()]
+            ok = raw.shape == data.shape and raw.dtype == data.dtype and np.array_equal(raw, data, equal_nan=raw.dtype.kind == "f")
+            check(ok, "the stored values are not exactly the values written (calibration / reads must never touch them)", array=nm,
+                  stored_dtype=str(raw.dtype), dtype=str(data.dtype))
+    f = nixio.File.open(path, nixio.FileMode.ReadOnly); b = f.blocks["b"]
+    for nm, data in made.items():
+        if nm in cal or 0 in data.shape:
+            continue
+        cmp(b.data_arrays[nm][:], data, "the array does not read back as written after reopening", array=nm)
+    f.close()
+    return ("%d arrays: %d shapes (rank 1-3, extents 0 and 1 included) x %d element types with extremes; up to 27 index expressions "
+            "per array and per view window (ints, negatives, stepped / empty slices, ellipsis, tuples) for reads, 12-14 for writes; appends "
+            "along every axis; 5 calibration settings x {whole, slice, view, np.array(view)} reads; raw stored values via h5py; reopen"
+            % (len(made), len(shapes), len(dtypes)))
+
+
+C17_CHILD = r'''
+import json, os, sys, time
+sys.path.insert(0, %(here)r)
+import numpy as np
+import bounded as B
+import nixio
+path, side, stop_at, how, compr = sys.argv[1], sys.argv[2], int(sys.argv[3]), sys.argv[4], sys.argv[5]
+f = nixio.File.open(path, nixio.FileMode.Overwrite, compression=getattr(nixio.Compression, compr))
+steps = []
+def step(fn):
+    steps.append(fn)
+blk = {}
+step(lambda: blk.setdefault("b", f.create_block("grow", "t")))
+step(lambda: blk.setdefault("a", blk["b"].create_data_array("a", "t", data=np.arange(12.0).reshape(3, 4))))
+step(lambda: blk["a"].append(np.ones((2, 4)), axis=0))
+step(lambda: B.sample_file(f))
+step(lambda: [blk["a"].append(np.full((1, 4), float(i)), axis=0) for i in range(20)])
+step(lambda: blk["b"].create_data_array("big", "t", data=np.arange(50000, dtype="<i4")))
+step(lambda: (setattr(blk["a"], "label", "grown"), blk["a"].append_sampled_dimension(0.1), f.sections["sess"].create_property("late", ["x"])))
+step(lambda: f.blocks.__delitem__("blk1"))
+for k, s in enumerate(steps):
+    s()
+    if k == stop_at:
+        break
+expected = B.walk_file(f)
+with open(side, "w") as fh:
+    json.dump(expected, fh)
+if how == "flush":
+    f.flush()
+else:
+    f.close()
+with open(side + ".ready", "w") as fh:
+    fh.write("ready")
+time.sleep(600)
+'''
+
+
+def b_c17(tier):
+    """flush() / close() durability: the writer is killed with SIGKILL right after the call returned"""
+    import signal
+    import subprocess
+    import time
+    import shutil
+    import nixio
+    d = tempfile.mkdtemp(prefix="bnd_c17_")
+    script = os.path.join(d, "child.py")
+    with open(script, "w") as fh:
+        fh.write(C17_CHILD % dict(here=os.path.dirname(os.path.abspath(__file__))))
+    cases = [(k, how, compr) for k in range(8) for how in ("flush", "close") for compr in ("No", "DeflateNormal")]
+    if tier == "quick":
+        cases = [c for c in cases if (c[0] + (c[1] == "close") + (c[2] == "No")) % 2 == 0 or c[0] in (4, 7)]
+    procs = []
+    for ci, (k, how, compr) in enumerate(cases):
+        path = os.path.join(d, "f%d.nix" % ci); side = os.path.join(d, "s%d.json" % ci)
+        p = subprocess.Popen([sys.executable, script, path, side, str(k), how, compr], stdout=subprocess.DEVNULL, stderr=subprocess.PIPE,
+                             env=dict(os.environ))
+        procs.append((p, path, side, k, how, compr))
+    for p, path, side, k, how, compr in procs:
+        t0 = time.time()
+        while not os.path.exists(side + ".ready") and p.poll() is None and time.time() - t0 < 120:
+            time.sleep(0.02)
+        case = dict(history_steps=k + 1, call=how, compression=compr)
+        if not os.path.exists(side + ".ready"):
+            err = p.stderr.read().decode()[-300:] if p.poll() is not None else "timeout"
+            p.kill(); check(False, "the writer did not reach the %s point" % how, error=err, **case); continue
+        os.kill(p.pid, signal.SIGKILL); p.wait()
+        expected = json.load(open(side))
+        for mode in (nixio.FileMode.ReadOnly, nixio.FileMode.ReadWrite):
+            cp = path + ".copy"; shutil.copy(path, cp)
+            try:
+                g = nixio.File.open(cp, mode)
+            except Exception as e:
+                check(False, "the file cannot be opened after the writer was killed", mode=mode, error=repr(e)[:200], **case); continue
+            r = diff(expected, walk_file(g))
+            check(r is None, "the file does not show the state at the moment of the %s" % how, mode=mode, where=r, **case)
+            g.close(); os.remove(cp)
+    shutil.rmtree(d, ignore_errors=True)
+    return ("%d writer processes: histories of 1..8 steps (entities of every kind, an array grown by 21 appends, a 50000-element array, "
+            "late attribute / dimension / property changes, a delete) x {flush, close} x {uncompressed, deflate}; SIGKILL immediately "
+            "after the call returned; reopened read-only and read-write and compared by a canonical walk" % len(cases))
+
+
+def b_c19(tier):
+    """timestamps under a controlled clock: creation fixed, update follows attribute changes of exactly that entity"""
+    import nixio
+    from nixio.util import util as uu
+    CLK = [1600000000]
+
+    def fake_now():
+        return CLK[0]
+    saved = (nixio.util.now_int, uu.now_int)
+    nixio.util.now_int = fake_now; uu.now_int = fake_now
+
+    def stamps(f):
+        out = {("file",): (f.created_at, f.updated_at)}
+
+        def sec(s, path):
+            out[path + (s.name,)] = (s.created_at, s.updated_at)
+            for p in s.props:
+                out[path + (s.name, "prop:" + p.name)] = (p.created_at, p.updated_at) if hasattr(p, "created_at") else (None, None)
+            for c in s.sections:
+                sec(c, path + (s.name,))
+
+        def src(s, path):
+            out[path + (s.name,)] = (s.created_at, s.updated_at)
+            for c in s.sources:
+                src(c, path + (s.name,))
+        for s in f.sections:
+            sec(s, ("md",))
+        for b in f.blocks:
+            out[("b", b.name)] = (b.created_at, b.updated_at)
+            for a in b.data_arrays:
+                out[("b", b.name, "a", a.name)] = (a.created_at, a.updated_at)
+            for kind, cont in (("t", b.tags), ("m", b.multi_tags)):
+                for t in cont:
+                    out[("b", b.name, kind, t.name)] = (t.created_at, t.updated_at)
+                    for i, ft in enumerate(t.features):
+                        out[("b", b.name, kind, t.name, "f", i)] = (ft.created_at, ft.updated_at)
+            for g in b.groups:
+                out[("b", b.name, "g", g.name)] = (g.created_at, g.updated_at)
+            for s in b.sources:
+                src(s, ("b", b.name, "s"))
+        return out
+    try:
+        for auto_at_open in (True, False):
+            for toggled in (False, True):
+                path = os.path.join(tempfile.mkdtemp(prefix="bnd_c19_"), "t.nix")
+                f = nixio.File.open(path, nixio.FileMode.Overwrite, auto_update_timestamps=auto_at_open if not toggled else not auto_at_open)
+                sample_file(f); tk = f.blocks[0].create_data_array("ticks1d", "t", data=np.array([0.5, 1.5, 3.0]))
+                if toggled:
+                    f.auto_update_timestamps = auto_at_open
+                auto = auto_at_open
+                b = f.blocks[0]; a = b.data_arrays["same"]; a2 = b.data_arrays["ints"]; t = b.tags[0]; m = b.multi_tags[0]; g = b.groups[0]
+                so = b.sources[0]; s = f.sections["sess"]
+                ops = [
+                    ("block.type", ("b", b.name), lambda: setattr(b, "type", "nt")), ("block.definition", ("b", b.name), lambda: setattr(b, "definition", "d")),
+                    ("array.type", ("b", b.name, "a", a.name), lambda: setattr(a, "type", "nt")),
+                    ("array.definition", ("b", b.name, "a", a.name), lambda: setattr(a, "definition", "dd")),
+                    ("array.definition=None", ("b", b.name, "a", a.name), lambda: setattr(a, "definition", None)),
+                    ("array.label", ("b", b.name, "a", a.name), lambda: setattr(a, "label", "lbl")),
+                    ("array.unit", ("b", b.name, "a", a.name), lambda: setattr(a, "unit", "mV")),
+                    ("array.unit=None", ("b", b.name, "a", a.name), lambda: setattr(a, "unit", None)),
+                    ("array.polynom_coefficients", ("b", b.name, "a", a.name), lambda: setattr(a, "polynom_coefficients", (1.0, 2.0))),
+                    ("array.polynom_coefficients=()", ("b", b.name, "a", a.name), lambda: setattr(a, "polynom_coefficients", ())),
+                    ("array.expansion_origin", ("b", b.name, "a", a.name), lambda: setattr(a, "expansion_origin", 1.5)),
+                    ("array.append_set_dimension", ("b", b.name, "a", a2.name), lambda: a2.append_set_dimension(["x"])),
+                    ("array.append_sampled_dimension", ("b", b.name, "a", a2.name), lambda: a2.append_sampled_dimension(0.5)),
+                    ("array.append_range_dimension", ("b", b.name, "a", a2.name), lambda: a2.append_range_dimension([1.0, 2.0])),
+                    ("array.append_range_dimension()", ("b", b.name, "a", a2.name), lambda: a2.append_range_dimension()),
+                    ("array.append_range_dimension_using_self", ("b", b.name, "a", "ticks1d"), lambda: tk.append_range_dimension_using_self()),
+                    ("tag.position", ("b", b.name, "t", t.name), lambda: setattr(t, "position", [0.5])),
+                    ("tag.extent", ("b", b.name, "t", t.name), lambda: setattr(t, "extent", [1.0])),
+                    ("tag.units", ("b", b.name, "t", t.name), lambda: setattr(t, "units", ["ms"])),
+                    ("tag.units=[]", ("b", b.name, "t", t.name), lambda: setattr(t, "units", [])),
+                    ("tag.units=None", ("b", b.name, "t", t.name), lambda: setattr(t, "units", None)),
+                    ("tag.type", ("b", b.name, "t", t.name), lambda: setattr(t, "type", "nt")),
+                    ("mtag.units", ("b", b.name, "m", m.name), lambda: setattr(m, "units", ["s"])),
+                    ("mtag.units=None", ("b", b.name, "m", m.name), lambda: setattr(m, "units", None)),
+                    ("mtag.positions", ("b", b.name, "m", m.name), lambda: setattr(m, "positions", b.data_arrays["same"])),
+                    ("mtag.extents", ("b", b.name, "m", m.name), lambda: setattr(m, "extents", b.data_arrays["same"])),
+                    ("mtag.extents=None", ("b", b.name, "m", m.name), lambda: setattr(m, "extents", None)),
+                    ("mtag.definition", ("b", b.name, "m", m.name), lambda: setattr(m, "definition", "x")),
+                    ("group.type", ("b", b.name, "g", g.name), lambda: setattr(g, "type", "nt")),
+                    ("source.definition", ("b", b.name, "s", so.name), lambda: setattr(so, "definition", "x")),
+                    ("section.reference", ("md", s.name), lambda: setattr(s, "reference", "r2")),
+                    ("section.repository", ("md", s.name), lambda: setattr(s, "repository", "rp")),
+                    ("section.type", ("md", s.name), lambda: setattr(s, "type", "nt")),
+                    ("section.definition", ("md", s.name, "sub"), lambda: setattr(s.sections["sub"], "definition", "x")),
+                ]
+                tf = [(kind, tg) for kind, cont in (("t", b.tags), ("m", b.multi_tags)) for tg in cont if len(tg.features)]
+                if tf:
+                    kind, tg = tf[0]
+                    ops.append(("feature.link_type", ("b", b.name, kind, tg.name, "f", 0), lambda: setattr(tg.features[0], "link_type", nixio.LinkType.Untagged)))
+                    ops.append(("feature.data", ("b", b.name, kind, tg.name, "f", 0), lambda: setattr(tg.features[0], "data", b.data_arrays["ints"])))
+                for nm, key, op in ops:
+                    before = stamps(f); CLK[0] += 1000
+                    try:
+                        op()
+                    except Exception as e:
+                        check(False, "a legal attribute change was refused", op=nm, error=repr(e)[:200]); continue
+                    after = stamps(f)
+                    for k_ in before:
+                        if k_ not in after:
+                            continue
+                        c0, u0 = before[k_]; c1, u1 = after[k_]
+                        check(c0 == c1, "a creation time changed as a side effect", op=nm, entity=k_, auto=auto, toggled=toggled)
+                        if k_ == key and auto:
+                            check(u1 == CLK[0], "the update time of the changed entity was not set to the current time", op=nm, entity=k_,
+                                  toggled=toggled, before=u0, after=u1, clock=CLK[0])
+                        else:
+                            check(u1 == u0, "an update time changed although " + ("automatic timestamps are off" if not auto else
+                                                                                    "another entity was changed"), op=nm, entity=k_, auto=auto,
+                                  toggled=toggled, before=u0, after=u1)
+                # forced whole seconds, read back now and after reopening
+                secs = [0, 1, 86399, 951782400, 1230768000, 1356998399, 1609459199, 1609459200, 2 ** 31 - 1, 2 ** 31, 4102444799]
+                want = {}
+                ents = [("file", f), ("block", b), ("array", a), ("tag", t), ("mtag", m), ("group", g), ("source", so), ("section", s)]
+                for i, (nm, e) in enumerate(ents):
+                    for j, sec_ in enumerate(secs):
+                        e.force_created_at(sec_); e.force_updated_at(secs[-1 - j])
+                        check(e.created_at == sec_ and e.updated_at == secs[-1 - j], "a forced timestamp does not read back as that second", entity=nm,
+                              created=sec_, updated=secs[-1 - j], got=[e.created_at, e.updated_at])
+                    e.force_created_at(secs[i % len(secs)]); e.force_updated_at(secs[(i + 3) % len(secs)])
+                    want[nm] = (secs[i % len(secs)], secs[(i + 3) % len(secs)])
+                names = dict(block=b.name, array=a.name, tag=t.name, mtag=m.name, group=g.name, source=so.name, section=s.name)
+                f.close()
+                CLK[0] += 5000
+                f = nixio.File.open(path, nixio.FileMode.ReadOnly); b = f.blocks[names["block"]]
+                objs = dict(file=f, block=b, array=b.data_arrays[names["array"]], tag=b.tags[names["tag"]], mtag=b.multi_tags[names["mtag"]],
+                            group=b.groups[names["group"]], source=b.sources[names["source"]], section=f.sections[names["section"]])
+                for nm, (c_, u_) in want.items():
+                    check((objs[nm].created_at, objs[nm].updated_at) == (c_, u_), "forced timestamps are not the same after reopening", entity=nm,
+                          want=[c_, u_], got=[objs[nm].created_at, objs[nm].updated_at])
+                f.close()
+    finally:
+        nixio.util.now_int, uu.now_int = saved
+    return ("2 auto-update settings x {set at open, toggled later} x 36 attribute changes on every entity kind under a stepped fake clock: "
+            "every timestamp of the file before / after each change; 11 forced whole seconds (1970 .. 2099, year boundaries where the ISO week-year differs, 2^31 boundary) x 8 entity "
+            "kinds incl. the file, read back and after reopening")
+
+
+def b_c14(tier):
+    """validation: nothing on a consistent file; every injected catalogue inconsistency is reported for exactly its object"""
+    import nixio
+    from nixio.validator import ValidationError as VE
+
+    def build():
+        f = newfile("v.nix"); b = f.create_block("blk", "t")
+        a = b.create_data_array("sig", "t", data=np.arange(12.0).reshape(3, 4)); a.unit = "mV"
+        a.append_sampled_dimension(0.5, unit="ms"); a.append_range_dimension(ticks=[1.0, 2.0, 4.0, 8.0], unit="s")
+        c = b.create_data_array("cat", "t", data=np.arange(6.0).reshape(2, 3)); c.append_set_dimension(["x", "y"]); c.append_sampled_dimension(1.0, unit="s")
+        o = b.create_data_array("other", "t", data=np.arange(5.0)); o.append_range_dimension(ticks=[0.0, 1.0, 2.0, 3.0, 4.0], unit="ms")
+        fr = b.create_data_array("free", "t", data=np.arange(5.0)); fr.append_range_dimension(ticks=[0.0, 1.0, 2.0, 3.0, 4.0], unit="ms")
+        pos = b.create_data_array("pos", "t", data=np.array([[0.5, 1.0], [1.0, 2.0]])); pos.append_set_dimension(); pos.append_set_dimension()
+        ext = b.create_data_array("ext", "t", data=np.array([[0.5, 1.0], [0.5, 2.0]])); ext.append_set_dimension(); ext.append_set_dimension()
+        t = b.create_tag("tag", "t", [0.5, 1.0]); t.extent = [1.0, 3.0]; t.units = ["us", "ms"]; t.references.append(a)
+        t.create_feature(o, nixio.LinkType.Untagged)
+        m = b.create_multi_tag("mtag", "t", pos); m.extents = ext; m.units = ["s", "ks"]; m.references.append(a)
+        t2 = b.create_tag("tag1d", "t", [1.5]); t2.units = ["s"]; t2.references.append(o)
+        g = b.create_group("grp", "t"); g.data_arrays.append(a); s = b.create_source("src", "t"); s.create_source("child", "t")
+        sec = f.create_section("sess", "t"); sec.create_property("n", [1]).unit = "mV"; sec.create_section("sub", "t")
+        return f
+
+    def report(f):
+        res = f.validate()
+        out = {}
+        for obj, errs in res["errors"].items():
+            key = "%s:%s" % (type(obj).__name__, _safe(lambda: obj.name) if not isinstance(obj, nixio.File) else "file")
+            out[key] = sorted(errs)
+        return out
+
+    def raw(e):
+        return e._h5group.group
+
+    def dimgrp(a, i):
+        return raw(a)["dimensions"][str(i)]
+
+    def set_ticks(a, i, ticks):
+        g = dimgrp(a, i)
+        if "ticks" in g:
+            del g["ticks"]
+        if ticks is not None:
+            g.create_dataset("ticks", data=np.array(ticks, dtype=float))
+
+    def retick(a, i, n):
+        a.dimensions[i - 1].ticks = [float(x) for x in range(n)]
+    INJ = {
+        # name: (object key, injection, expected errors on that object)
+        "surplus descriptor": ("DataArray:free", lambda f, b: b.data_arrays["free"].append_set_dimension(), [VE.DimensionMismatch]),
+        "missing descriptor": ("DataArray:cat", lambda f, b: (b.data_arrays["cat"].delete_dimensions(), b.data_arrays["cat"].append_set_dimension(["x", "y"])),
+                               [VE.DimensionMismatch]),
+        "tick count": ("DataArray:free", lambda f, b: retick(b.data_arrays["free"], 1, 4), [VE.RangeDimTicksMismatch.format(1)]),
+        "label count": ("DataArray:cat", lambda f, b: setattr(b.data_arrays["cat"].dimensions[0], "labels", ["x", "y", "z"]),
+                        [VE.SetDimLabelsMismatch.format(1)]),
+        "unsorted ticks": ("DataArray:sig", lambda f, b: set_ticks(b.data_arrays["sig"], 2, [1.0, 2.0, 8.0, 4.0]), [VE.UnsortedTicks.format(2)]),
+        "unsorted last pair": ("DataArray:free", lambda f, b: set_ticks(b.data_arrays["free"], 1, [0.0, 1.0, 2.0, 4.0, 3.0]), [VE.UnsortedTicks.format(1)]),
+        "equal ticks": ("DataArray:free", lambda f, b: set_ticks(b.data_arrays["free"], 1, [0.0, 1.0, 1.0, 3.0, 4.0]), [VE.UnsortedTicks.format(1)]),
+        "missing ticks": ("DataArray:free", lambda f, b: set_ticks(b.data_arrays["free"], 1, None), [VE.NoTicks.format(1)]),          # (+ optionally the count mismatch: 0 ticks)
+        "non-SI range unit": ("DataArray:free", lambda f, b: dimgrp(b.data_arrays["free"], 1).attrs.__setitem__("unit", "parsec"),
+                              [VE.InvalidDimensionUnit.format(1)]),
+        "compound sampled unit": ("DataArray:cat", lambda f, b: dimgrp(b.data_arrays["cat"], 2).attrs.__setitem__("unit", "mV/s"),
+                                  [VE.InvalidDimensionUnit.format(2)]),
+        "missing interval": ("DataArray:cat", lambda f, b: dimgrp(b.data_arrays["cat"], 2).attrs.__delitem__("sampling_interval"),
+                             [VE.NoSamplingInterval.format(2)]),
+        "negative interval": ("DataArray:sig", lambda f, b: dimgrp(b.data_arrays["sig"], 1).attrs.__setitem__("sampling_interval", -0.5),
+                              [VE.InvalidSamplingInterval.format(1)]),
+        "position length": ("Tag:tag1d", lambda f, b: setattr(b.tags["tag1d"], "position", [1.0, 2.0]), [VE.PositionDimensionMismatch]),
+        "extent length": ("Tag:tag", lambda f, b: setattr(b.tags["tag"], "extent", [1.0]), [VE.PositionExtentMismatch, VE.ExtentDimensionMismatch]),
+        "unit count": ("Tag:tag", lambda f, b: setattr(b.tags["tag"], "units", ["ms"]), [VE.ReferenceUnitsMismatch]),
+        "unconvertible unit": ("Tag:tag", lambda f, b: setattr(b.tags["tag"], "units", ["ms", "mV"]), [VE.ReferenceUnitsIncompatible]),
+        "unit vs unitless dimension": ("Tag:tag1d", lambda f, b: dimgrp(b.data_arrays["other"], 1).attrs.__delitem__("unit"),
+                                       [VE.ReferenceUnitsIncompatible]),
+        "s vs S": ("Tag:tag1d", lambda f, b: setattr(b.tags["tag1d"], "units", ["mS"]), [VE.ReferenceUnitsIncompatible]),
+        "non-SI tag unit": ("Tag:tag1d", lambda f, b: raw(b.tags["tag1d"])["units"].__setitem__(0, "parsec"),
+                            [VE.ReferenceUnitsIncompatible, VE.InvalidUnit]),
+        "mtag unit count": ("MultiTag:mtag", lambda f, b: setattr(b.multi_tags["mtag"], "units", ["s"]), [VE.ReferenceUnitsMismatch]),
+        "mtag unconvertible": ("MultiTag:mtag", lambda f, b: setattr(b.multi_tags["mtag"], "units", ["s", "V"]), [VE.ReferenceUnitsIncompatible]),
+        "mtag extents shape": ("MultiTag:mtag", lambda f, b: setattr(b.multi_tags["mtag"], "extents", b.data_arrays["other"]),
+                               [VE.PositionsExtentsMismatch, VE.ExtentsDimensionMismatch]),
+        "mtag positions width": ("MultiTag:mtag", lambda f, b: (setattr(b.multi_tags["mtag"], "extents", None),
+                                                                 setattr(b.multi_tags["mtag"], "positions", b.data_arrays["other"])),
+                                 [VE.PositionsDimensionMismatch]),
+        "missing type": ("DataArray:pos", lambda f, b: raw(b.data_arrays["pos"]).attrs.__delitem__("type"), [VE.NoType]),
+        "missing date": ("Group:grp", lambda f, b: raw(b.groups["grp"]).attrs.__delitem__("created_at"), [VE.NoDate]),
+        "missing id": ("Source:child", lambda f, b: raw(b.sources["src"].sources["child"]).attrs.__delitem__("entity_id"), [VE.NoID]),
+        "missing type (section)": ("Section:sub", lambda f, b: raw(f.sections["sess"].sections["sub"]).attrs.__delitem__("type"), [VE.NoType]),
+        "missing type (block)": ("Block:blk", lambda f, b: raw(b).attrs.__delitem__("type"), [VE.NoType]),
+    }
+    OPTIONAL = {"missing ticks": {VE.RangeDimTicksMismatch.format(1)}}       # no ticks is also a tick count of 0
+    f = build(); r = report(f); f.close()
+    check(r == {}, "a consistent file is reported to have errors", reported=r)
+    names = list(INJ)
+    for nm in names:
+        key, inj, want = INJ[nm]
+        f = build()
+        try:
+            inj(f, f.blocks["blk"])
+        except Exception as e:
+            f.close(); check(False, "the battery could not inject the inconsistency (API changed?)", injection=nm, error=repr(e)[:200]); continue
+        try:
+            r = report(f)
+        except Exception as e:
+            f.close()
+            if nm == "missing id" and isinstance(e, ValueError) and "UUID" in str(e):
+                # known finding C14-missing-id: no handle can be made for an entity without a valid id, so the validator aborts
+                KNOWN.setdefault("C14-missing-id", []).append("validate() on a file whose source 'child' has no entity_id: " + repr(e)); N[0] += 1
+            else:
+                check(False, "validation aborted instead of reporting the inconsistency", injection=nm, error=repr(e)[:200])
+            continue
+        f.close()
+        got = set(r.get(key, []))
+        check(set(want) <= got <= set(want) | OPTIONAL.get(nm, set()), "an injected inconsistency is not reported for its object exactly as catalogued",
+              injection=nm, object=key, reported=r.get(key), expected=sorted(want))
+        others = {k_: v for k_, v in r.items() if k_ != key}
+        check(not others, "an inconsistency of one object is reported for other objects", injection=nm, others=others)
+    # pairs of inconsistencies at different objects
+    pairs = [(x, y) for i, x in enumerate(names) for y in names[i + 1:] if INJ[x][0] != INJ[y][0]
+             and not {x, y} & {"unit vs unitless dimension"}]
+    if tier == "quick":
+        pairs = pairs[::9]
+    npairs = 0
+    for x, y in pairs:
+        # (injections that touch an array another injected object refers to would interact: keep the objects independent)
+        touched = {"DataArray:other": {"Tag:tag1d", "MultiTag:mtag"}, "DataArray:sig": {"Tag:tag", "MultiTag:mtag"}}
+        if INJ[y][0] in touched.get(INJ[x][0], ()) or INJ[x][0] in touched.get(INJ[y][0], ()):
+            continue
+        f = build()
+        try:
+            INJ[x][1](f, f.blocks["blk"]); INJ[y][1](f, f.blocks["blk"])
+        except Exception:
+            f.close(); continue
+        if "missing id" in (x, y):
+            f.close(); continue
+        r = report(f); f.close(); npairs += 1
+        want = {INJ[x][0]: sorted(INJ[x][2]), INJ[y][0]: sorted(INJ[y][2])}
+        for z in (x, y):
+            if z in OPTIONAL and INJ[z][0] in r:
+                r[INJ[z][0]] = sorted(set(r[INJ[z][0]]) - OPTIONAL[z])
+        check(r == want, "two injected inconsistencies are not reported as exactly those two", injections=[x, y], reported=r, expected=want)
+    return ("one well-formed file (3 arrays with all descriptor kinds, tag, 1-D tag, multi-tag, group, source tree, sections); %d single "
+            "injections of catalogue inconsistencies and %d pairs at independent objects; report compared object by object" % (len(names), npairs))
+
+
 def _ids(w):
     out = []
     if isinstance(w, dict):
@@ -967,7 +1954,7 @@ def _links(e):
     return out
 
 
-BATTERIES = {"c02": b_c02, "c13": b_c13, "c08": b_c08, "c16": b_c16, "c05": b_c05, "c04": b_c04, "c03": b_c03, "c12": b_c12, "c20": b_c20}
+BATTERIES = {"c02": b_c02, "c13": b_c13, "c08": b_c08, "c16": b_c16, "c05": b_c05, "c04": b_c04, "c03": b_c03, "c12": b_c12, "c20": b_c20, "c18": b_c18, "c11": b_c11, "c10": b_c10, "c01": b_c01, "c17": b_c17, "c19": b_c19, "c14": b_c14}
 
 
 def main():
@@ -978,7 +1965,7 @@ def main():
         print(json.dumps(dict(battery=name, error="nixio resolves to %s, not to %s" % (nixio.__file__, repo))))
         sys.exit(3)
     bound = BATTERIES[name](tier)
-    print(json.dumps(dict(battery=name, bound=bound, evaluations=N[0], violations=BAD), default=str))
+    print(json.dumps(dict(battery=name, bound=bound, evaluations=N[0], violations=BAD, known=KNOWN), default=str))
 
 
 if __name__ == "__main__":
